@@ -194,6 +194,13 @@ let () =
                  Printf.sprintf "%s %s %s %s %s %s %s %s %d %d %s %s" (b c1) (b c2) (b perm) (b c3) (b fifo) (b f1) (b f2)
                    (b (f3 || not issat)) (List.length st.e_db) (List.length st.e_calls) (b quiet) (b asrt)
                | None -> "0 0 0 0 0 0 0 0 -1 -1 0 0")
+            | "watch" ->
+              (* U P sevs reported-conflicts registered-assertions (positions among the encoder's clauses) ->
+                 conflicts-equal assertions-equal side-conditions-hold *)
+              let u = universe s in let p = problem s in let evs = rep s sev in
+              let conf = nlist s in let asrt = nlist s in
+              let ((c1, c2), c3) = check_watch (table_provider u) p evs conf asrt in
+              Printf.sprintf "%s %s %s" (b c1) (b c2) (b c3)
             | "enc2" ->
               (* U P1 sevs1 P2 sevs2 db2 calls2 trail2 issat2 -> for the SECOND solve on the same solver (cache left by the first):
                  clauses-equal calls-equal all-completed fifo req-true trail-equal final-ok no-repeat [model sizes] *)
